@@ -35,6 +35,7 @@ Design choices
   TEMPORARY_TEMP but access the same heap words in the same order), so they are not modelled here.
 -/
 import Std.Data.HashMap
+import Std.Data.HashSet
 
 namespace Scc.Heap
 
@@ -371,6 +372,45 @@ def loadObj (s : HState) (p : Nat) (kinds : List Bool) : Except Fault (HState ×
         | .error e => .error e
         | .ok (s1, vals, _) => .ok (s1, vals)
 
+/-! ## Executable preconditions of `load` (well-formedness of histories)
+
+`load` does not check anything; it is correct only for an object of the shape its kinds describe
+(the shape `store` with the same kinds produces).  `Scc.Heap.LoadPre` (ProofsLoad) states this
+precondition as a `Prop`; the functions below decide it (`opPreB_sound` in ProofsHist). -/
+
+/-- Is the pointer slot of field `i` read by `load_values` when variables of kinds `ks` are loaded
+from a block with `cap` usable fields?  (The values sit right-aligned in fields `cap-|ks| .. cap-1`;
+`true` = pointer-typed variable.) -/
+def slotLoaded (ks : List Bool) (cap i : Nat) : Bool :=
+  decide (cap - ks.length ≤ i) && decide (i < cap) && ks.getD (i - (cap - ks.length)) false
+
+def blockPreB (m : Nat → Nat) (blk : Nat) (ks : List Bool) (pos : BlockPosition) : Bool :=
+  (List.range (fieldsPerBlock - pos.toNat)).all
+    (fun i => slotLoaded ks (fieldsPerBlock - pos.toNat) i || m (blk + fstOff i) == 0) &&
+  (pos != .other || m (blk + fstOff (fieldsPerBlock - 1)) != 0)
+
+def loadPreB (s : HState) (kinds : List Bool) (pos : BlockPosition) (mode : LoadMode) (p : Nat) : Bool :=
+  if _h : kinds = [] then true
+  else
+    let rl := restLength kinds.length pos
+    loadPreB s (kinds.take rl) .other mode p &&
+    match loadFields s (kinds.take rl) .other mode p with
+    | .ok (s1, _, blk) =>
+      blockPreB s1.mem.get blk (kinds.drop rl) pos &&
+      (mode != .release || (kinds.take rl).isEmpty || s1.mem.get blk == 0)
+    | .error _ => true
+termination_by kinds.length
+decreasing_by
+  have : 0 < kinds.length := List.length_pos_iff.mpr _h
+  simp only [List.length_take]
+  exact Nat.lt_of_le_of_lt (Nat.min_le_left _ _) (restLength_lt _ _ this)
+
+def loadObjPreB (s : HState) (p : Nat) (kinds : List Bool) : Bool :=
+  if kinds = [] then p == 0
+  else p != 0 &&
+    (if s.mem.get p = 0 then loadPreB s kinds .last .release p
+     else loadPreB { s with mem := s.mem.set p (s.mem.get p - 1) } kinds .last .share p)
+
 /-! ## Histories
 
 `roots` is the multiset (as a list) of the pointer parts currently held by live pointer-typed
@@ -443,6 +483,16 @@ def applyOps (st : HState × List Nat) : List HOp → Except Fault (HState × Li
     | .error e => .error e
     | .ok st1 => applyOps st1 ops
 
+/-- Decides the precondition `OpPre` of one history step. -/
+def opPreB (st : HState × List Nat) : HOp → Bool
+  | .erase r => st.2.contains r
+  | .share r _ => st.2.contains r
+  | .store fields =>
+    match consumeRoots st.2 (ptrsOf (fields.map FieldRef.toField)) with
+    | .ok _ => true
+    | .error _ => false
+  | .load r kinds => st.2.contains r && loadObjPreB st.1 r kinds
+
 /-! ## Walks (used by the checker and by C10) -/
 
 /-- Follow word 0 from `a` until 0, at most `fuel` steps. -/
@@ -490,20 +540,40 @@ def checkedWalk (m : Nat → Nat) (base hi : Nat) (stopAtZeroHeader : Bool) (wha
     else if stopAtZeroHeader && m a = 0 then .ok (a :: acc).reverse
     else checkedWalk m base hi stopAtZeroHeader what fuel (m a) (a :: acc)
 
-/-- Depth-first traversal through pointer slots.  `stack` holds pointers still to visit. -/
+/-- Work items of the depth-first traversal. -/
+inductive Work where
+  | visit (p : Nat)     -- pointer still to be looked at
+  | finish (p : Nat)    -- all children of block `p` have been handled
+  deriving Repr
+
+/-- Depth-first traversal through pointer slots.  Blocks are emitted when they are FINISHED, at the
+front of `acc`, so the result is in reverse post-order: if there is no cycle every block comes before
+the blocks its slots point to (checked afterwards by `topoCheckRev`). -/
 def reachLoop (m : Nat → Nat) (base frontier : Nat) :
-    Nat → List Nat → Std.HashMap Nat Unit → List Nat → Except String (List Nat)
+    Nat → List Work → Std.HashSet Nat → List Nat → Except String (List Nat)
   | 0, _, _, _ => .error "reach: out of fuel"
   | fuel + 1, stack, seen, acc =>
     match stack with
     | [] => .ok acc
-    | p :: rest =>
+    | .finish p :: rest => reachLoop m base frontier fuel rest seen (p :: acc)
+    | .visit p :: rest =>
       if p = 0 then reachLoop m base frontier fuel rest seen acc
       else if seen.contains p then reachLoop m base frontier fuel rest seen acc
       else if !(isBlockB base p) || frontier ≤ p then
         .error s!"(v) pointer {p} is not a block below the frontier {frontier}"
       else
-        reachLoop m base frontier fuel (ptrSlots m p ++ rest) (seen.insert p ()) (p :: acc)
+        reachLoop m base frontier fuel
+          ((ptrSlots m p).map Work.visit ++ Work.finish p :: rest) (seen.insert p) acc
+
+/-- Check that a list, given in REVERSE, is topologically sorted: going through the reversed list,
+every pointer slot of a block is null or one of the blocks seen before (= later in the list).
+Returns an offending block. -/
+def topoCheckRev (m : Nat → Nat) : List Nat → Std.HashSet Nat → Option Nat
+  | [], _ => none
+  | b :: rest, later =>
+    if (ptrSlots m b).all (fun p => p == 0 || later.contains p) then
+      topoCheckRev m rest (later.insert b)
+    else some b
 
 def countMap (xs : List Nat) : Std.HashMap Nat Nat :=
   xs.foldl (fun c x => c.insert x (c.getD x 0 + 1)) ∅
@@ -541,10 +611,17 @@ def invCheckFn (m : Nat → Nat) (base limit heap free : Nat) (roots pend : List
   let frontier := freeL.getLastD free
   let lazy := freeL.dropLast
   let nBelow := (frontier - base) / blockSize
-  match reachLoop m base frontier (4 * nBelow + roots.length + 3 * lazy.length + 8)
-      (roots ++ ptrFields m lazy) ∅ [] with
+  match reachLoop m base frontier (8 * nBelow + roots.length + 3 * lazy.length + 8)
+      ((roots ++ ptrFields m lazy).map Work.visit) ∅ [] with
   | .error e => .error e
   | .ok live =>
+  match topoCheckRev m live.reverse ∅ with
+  | some b => .error s!"(vi) block {b} lies on a cycle of reachable blocks"
+  | none =>
+  let liveSet := Std.HashSet.ofList live
+  match firstFailing (roots ++ ptrFields m (live ++ lazy)) (fun p => p != 0 && !liveSet.contains p) with
+  | some p => .error s!"(v) pointer {p} (a root or a pointer slot of a reachable/deferred block) is not a reachable block"
+  | none =>
   match coverCheck nBelow base ((lin ++ lazy ++ live ++ pend).mergeSort (· ≤ ·)) with
   | .error e => .error e
   | .ok () =>
@@ -581,6 +658,8 @@ The invariant is checked after every op.
 Reply:    `OK heap=<h> free=<f> frontier=<F> lin=<n> lazy=<n> live=<n> roots=<r,r,...>`
         | `FAULT <k> <fault>`     op number k (from 0) faulted
         | `INV-FAIL <k> <clause and block>`   invariant broken after op number k
+        | `PRE-FAIL <k> ..`       op number k violates its precondition (`opPreB`: root not held,
+                                  or `load` on an object whose shape does not match the kinds)
         | `BAD <message>`         malformed request -/
 
 def parseNat? (s : String) : Option Nat := s.toNat?
@@ -663,6 +742,7 @@ def runLOps (s : HState) (roots : List Nat) : Nat → List LOp → String
     match resolveOp roots op with
     | .error e => s!"FAULT {k} {faultToString e}"
     | .ok hop =>
+      if !(opPreB (s, roots) hop) then s!"PRE-FAIL {k} precondition of op violated" else
       match applyOp (s, roots) hop with
       | .error e => s!"FAULT {k} {faultToString e}"
       | .ok (s1, roots1) =>
